@@ -12,6 +12,7 @@
 (* centre hydrogens written consistently for the mode.                       *)
 (***************************************************************************)
 EXTENDS Rule, Json, IOUtils
+PR == INSTANCE Prune
 
 Cases == ndJsonDeserialize(IOEnv.CASES)
 
@@ -50,6 +51,8 @@ Verdict(c) ==
            (* known findings are identified by their mechanism (see known_findings.json) *)
            (IF /\ \E k \in DOMAIN c.raw : c.raw[k].r = c.want.r /\ c.raw[k].p = c.want.p
                /\ c.mode = "implicit" /\ ~c.full /\ LeftComponents(rc) >= 2
+               (* ... and the result set is exactly what the pruning algorithm as implemented (Prune.tla) leaves *)
+               /\ "pat" \in DOMAIN c.model /\ {c.got[k] : k \in DOMAIN c.got} = PR!ModelResult(c.model)
             THEN "[regenerating-match-removed-by-symmetry-pruning,multi-component-centre]"
             ELSE IF c.mode = "explicit" /\ c.full /\ TwoExplicitHToOneAtom(I)
             THEN "[full-its-template,two-explicit-hydrogens-move-to-one-atom]" ELSE "")
